@@ -1702,4 +1702,157 @@ theorem reach_crashed {k : Nat} {w w' : W} (h : Reach k w w') :
       rw [keep hr hsucc htc]; rfl
     · exact Or.inr (Or.inr hp)
 
+def startW (p : Prog) : W := startSetUp p (entryW p)
+
+theorem start_linv (p : Prog) : LInv p (startW p) := by
+  obtain ⟨k, hk, _⟩ := startSetUp_reach p (entryW p)
+  obtain ⟨hr, hs, hn⟩ := entry_run p
+  exact ⟨inv1_reach hk (entry_inv1 p), startSetUp_cinv hr hs hn⟩
+
+theorem entry_calls_length (p : Prog) : (entryW p).calls.length = p.stops.length + 1 := by
+  obtain ⟨h1, _, _, _, _, _, h7⟩ := prepare_spec p
+  simp [entryW, insert_length, h7]
+
+theorem start_pot (p : Prog) : pot p (startW p) ≤ bound p := by
+  obtain ⟨k, hk, hk2⟩ := startSetUp_reach p (entryW p)
+  have := reach_calls_length hk
+  have hs := (entry_run p).2.1
+  rw [entry_calls_length] at this
+  simp only [hs, stackCalls, List.map_nil, List.sum_nil, Nat.add_zero] at hk2
+  simp only [pot, startW, bound]
+  omega
+
+theorem start_crashed (p : Prog) (h : (startW p).crashed = true) : (startW p).sp.success.isSome = true := by
+  obtain ⟨k, hk, _⟩ := startSetUp_reach p (entryW p)
+  rcases (reach_crashed hk).2 h with h1 | h1 | h1
+  · simp [entryW] at h1
+  · exact h1
+  · simp [entryW] at h1
+
+/-- a recorded success stays recorded -/
+def SInv (p : Prog) (b : Nat) (w : W) : Prop := Inv1 p w ∧ w.sp.success = some b
+
+theorem sinv_pop {p : Prog} {b : Nat} {w : W} (h : SInv p b w) (c : DCall (QAct CAct)) (rest : List (DCall (QAct CAct)))
+    (hc : w.calls = c :: rest) (hdue : c.time ≤ w.now) : SInv p b (execCall (exec p) c { w with calls := rest }) := by
+  refine ⟨inv1_pop h.1 c rest hc hdue, ?_⟩
+  have hnp : w.sp.tcall ≠ .pending := by
+    intro hp; have := (h.1.pend hp).1; rw [h.2] at this; cases this
+  rcases c with ⟨t, q⟩
+  cases q with
+  | timeout =>
+    have htc := h.1.tcount
+    rw [hc, List.filter_cons_of_pos (by rfl)] at htc
+    simp [hnp] at htc
+  | user l a =>
+    cases a with
+    | noop => exact h.2
+    | stop => simp only [execCall, exec]; split <;> exact h.2
+    | stageDone r =>
+      obtain ⟨k, hk, _⟩ := resume_reach p r (logEvent (.user l) { w with calls := rest })
+      have : (fun w : W => w.sp.tcall ≠ .pending ∧ w.sp.success = some b) (resume p r (logEvent (.user l) { w with calls := rest })) :=
+        Reach.inv (fun w : W => w.sp.tcall ≠ .pending ∧ w.sp.success = some b) (fun _ _ h => h) (fun _ _ _ _ h => h)
+          (fun w b' h => by
+            rw [deliver_of_not_pending _ _ h.1]
+            exact ⟨by simpa using h.1, by simpa using h.2⟩) hk ⟨hnp, h.2⟩
+      exact this.2
+
+theorem sinv_drain {p : Prog} {b : Nat} (n : Nat) (w : W) (h : SInv p b w) : SInv p b (drain (exec p) n w) :=
+  drain_inv (exec p) (SInv p b) (fun _ c rest h hc hd => sinv_pop h c rest hc hd) n w h
+
+theorem drain_noDue {p : Prog} (n : Nat) (w : W) (h : NoDue w) : drain (exec p) n w = w := by
+  cases n with
+  | zero => rfl
+  | succ n =>
+    unfold drain
+    split
+    · rfl
+    · rename_i c rest hc
+      have := h c rest hc
+      have hn : ¬ c.time ≤ w.now := by omega
+      simp [hn]
+
+theorem crashed_pop {p : Prog} {w : W} (h : w.crashed = true) (c : DCall (QAct CAct)) (rest : List (DCall (QAct CAct))) :
+    (execCall (exec p) c { w with calls := rest }).crashed = true := by
+  rcases c with ⟨t, q⟩
+  cases q with
+  | timeout => simp [execCall, execTimeout, stopReactor_crashed, h]
+  | user l a =>
+    cases a with
+    | noop => exact h
+    | stop => simp only [execCall, exec]; split <;> rfl
+    | stageDone r =>
+      obtain ⟨k, hk, _⟩ := resume_reach p r (logEvent (.user l) { w with calls := rest })
+      exact (reach_crashed hk).1 h
+
+theorem linv_flags {p : Prog} {w : W} (h : LInv p w) (a b : Bool) : LInv p { w with running := a, stopPatched := b } :=
+  ⟨⟨h.1.sorted, h.1.ge, h.1.ttime, h.1.tcount, h.1.pend, h.1.called, h.1.cancelled, h.1.nounset, h.1.alive, h.1.stops,
+    h.1.stopcalls, h.1.cause⟩, cinv_congr h.2 w.u.realStops rfl rfl rfl⟩
+
+/-- the state in which `_clean` collects the junk -/
+theorem end_state (p : Prog) :
+    LInv p (afterIter p) ∧ (afterIter p).crashed = true ∧
+    ((afterIter p).sp.success = none → ∀ c ∈ (afterIter p).calls, (afterIter p).now < c.time) := by
+  have hS := start_linv p
+  have hE : LInv p (spinPhase p (prepare p)) := by rw [spinPhase_eq]; exact linv_spin _ _ _ hS
+  obtain ⟨hd1, hd2, _⟩ := spin_done p (bound p) (bound p + 1) (startW p) (start_pot p) (by have := start_pot p; omega)
+  have hsp : spin (exec p) (fun _ => bound p) (bound p + 1) (startW p) = spinPhase p (prepare p) := (spinPhase_eq p).symm
+  rw [hsp] at hd1 hd2
+  have hcrE : (spinPhase p (prepare p)).crashed = true := by
+    rcases hd1 with h | h
+    · exact h
+    · cases hcr : (spinPhase p (prepare p)).crashed with
+      | true => rfl
+      | false =>
+        have htc := hE.1.tcount
+        rw [(hE.1.alive hcr).1, h] at htc
+        simp at htc
+  have hA : LInv p (afterSpin p) := linv_flags hE false false
+  have hI : LInv p (afterIter p) := by
+    unfold afterIter; split
+    · exact linv_drain _ _ (linv_drain _ _ hA)
+    · exact hA
+  have hcrI : (afterIter p).crashed = true := by
+    have hcrA : (afterSpin p).crashed = true := hcrE
+    unfold afterIter; split
+    · exact drain_inv (exec p) (fun w => w.crashed = true) (fun _ c rest h _ _ => crashed_pop h c rest) _ _
+        (drain_inv (exec p) (fun w => w.crashed = true) (fun _ c rest h _ _ => crashed_pop h c rest) _ _ hcrA)
+    · exact hcrA
+  refine ⟨hI, hcrI, ?_⟩
+  intro hnone
+  -- no success recorded: the chain was suspended when the loop started, so the loop ran and was drained
+  have hstart : (startW p).crashed = false := by
+    cases hcr : (startW p).crashed with
+    | false => rfl
+    | true =>
+      exfalso
+      obtain ⟨b, hb⟩ := Option.isSome_iff_exists.mp (start_crashed p hcr)
+      have hsS : SInv p b (startW p) := ⟨hS.1, hb⟩
+      have hsE : SInv p b (spinPhase p (prepare p)) := by
+        rw [spinPhase_eq]
+        exact spin_inv (exec p) _ (SInv p b) (fun _ c rest h hc hd => sinv_pop h c rest hc hd)
+          (fun _ c rest h hc hcr => ⟨inv1_adv h.1 c rest hc hcr, h.2⟩) _ _ hsS
+      have hsA : SInv p b (afterSpin p) := ⟨hA.1, hsE.2⟩
+      have hsI : SInv p b (afterIter p) := by
+        unfold afterIter; split
+        · exact sinv_drain _ _ (sinv_drain _ _ hsA)
+        · exact hsA
+      rw [hsI.2] at hnone; cases hnone
+  have hndE : NoDue (spinPhase p (prepare p)) := hd2 hstart
+  have hndA : NoDue (afterSpin p) := hndE
+  have hIA : afterIter p = afterSpin p := by
+    unfold afterIter; split
+    · rw [drain_noDue _ _ hndA, drain_noDue _ _ hndA]
+    · rfl
+  rw [hIA]
+  intro c hc
+  have hs := hA.1.sorted
+  cases hcalls : (afterSpin p).calls with
+  | nil => rw [hcalls] at hc; cases hc
+  | cons d ds =>
+    have hd := hndA d ds hcalls
+    rw [hcalls] at hc hs
+    rcases List.mem_cons.mp hc with rfl | hc
+    · exact hd
+    · have := (hs.head c hc).1; omega
+
 end TTV.Props.C14
